@@ -17,6 +17,7 @@ From OV Require Import Proofs.MeshIO2.
 From OV Require Import Proofs.MeshIO3.
 From OV Require Import Proofs.MeshIO3Fmt.
 Import ListNotations.
+Local Open Scope Q_scope.
 
 Notation meshQ := (mesh1 AQ AQ).
 
@@ -155,3 +156,46 @@ Example file_roundtrip_sci_run :
   meshQ_view (let* lines := @output1 AQ AQ stok (fmt_sci 2) (fmt_sci 2) ex_r in
               @read1 AQ stok (parse_sci 2) ex_r0 (concat lines)) = meshQ_view (Ok ex_r_sci2).
 Proof. vm_compute. reflexivity. Qed.
+
+(* ------------------------------------------------------------------ reading ANY token list with
+   the fixed-point parser into a well-formed mesh: a mesh, or Panic Unwrap -- and the panic exactly
+   when some token is malformed; no other panic is possible *)
+Lemma read_fix_outcome (N : nat) (m0 : meshQ) (toks : list ftok) :
+  Forall (fun r => length r = m1_nvars m0) (m1_vars m0) ->
+  (@read1 AQ ftok (parse_fix N) m0 toks = Panic Unwrap <->
+   exists t, In t toks /\ (ft_int t < 0)%Z) /\
+  (forall k, @read1 AQ ftok (parse_fix N) m0 toks = Panic k -> k = Unwrap).
+Proof.
+  intros Hall0.
+  destruct (read1_panic_class (A:=AQ) ftok (parse_fix N) m0 toks Unwrap Hall0) as [Hiff Honly].
+  { intros t k' _ H. now apply parse_fix_panic in H. }
+  split; [|exact Honly]. rewrite Hiff. split.
+  - intros (t & Ht & Hp). exists t. split; [exact Ht|]. now apply parse_fix_panic in Hp.
+  - intros (t & Ht & Hneg). exists t. split; [exact Ht|]. unfold parse_fix.
+    apply Z.ltb_lt in Hneg. now rewrite Hneg.
+Qed.
+
+(* ------------------------------------------------------------------ more concrete inputs *)
+(* every entry has at most one decimal *)
+Definition ex_h : meshQ :=
+  @mkM1 AQ Qc 2 [q 0 1; q 1 2; q 3 1] [[q 1 1; q (-7) 10]; [q 3 1; q 4 5]; [q 5 1; q 123 10]].
+
+Lemma ex_h_wf : wf1 ex_h.
+Proof. split; [reflexivity|]. repeat constructor. Qed.
+
+Lemma ex_h_survives :
+  forall x : Qc, In x (m1_nodes ex_h ++ concat (m1_vars ex_h)) -> parse_fix 1 (fmt_fix 1 x) = Ok x.
+Proof.
+  intros x Hx. rewrite parse_fmt_fix. apply (f_equal (@Ok Qc)). apply Qc_is_canon.
+  cbn in Hx. repeat (destruct Hx as [<-|Hx]; [vm_compute; reflexivity|]). destruct Hx.
+Qed.
+
+(* but not every value does: 1/3 *)
+Lemma third_does_not_survive : parse_fix 1 (fmt_fix 1 (q 1 3)) <> Ok (q 1 3).
+Proof.
+  intros E. apply (f_equal (fun r => match r with Ok y => this y | Panic _ => 0%Q end)) in E.
+  vm_compute in E. discriminate.
+Qed.
+
+(* a formatter that writes a malformed token for negative values *)
+Definition fmt_bad (x : Qc) : ftok := FTok false (Qnum x).
